@@ -648,6 +648,7 @@ func wgEvaluate(in wgInput, o wgOpts) *wgResult {
 			}
 			outs := make([]out, 4)
 			var wgrp sync.WaitGroup
+			start := make(chan struct{}) // all four begin together, so that their builds overlap
 			for i := range outs {
 				wgrp.Add(1)
 				go func(i int) {
@@ -657,7 +658,8 @@ func wgEvaluate(in wgInput, o wgOpts) *wgResult {
 							outs[i].pan = fmt.Sprint(r)
 						}
 					}()
-					for k := 0; k < 3; k++ {
+					<-start
+					for k := 0; k < 12; k++ {
 						if i%2 == 0 {
 							outs[i].wg, outs[i].err = sb.Build(pm)
 						} else {
@@ -666,6 +668,7 @@ func wgEvaluate(in wgInput, o wgOpts) *wgResult {
 					}
 				}(i)
 			}
+			close(start)
 			wgrp.Wait()
 			for i := range outs {
 				if outs[i].pan != "" {
